@@ -45,7 +45,7 @@ AllPushes ==
 Pushes == IF Focus = "splice" THEN SplicePushes ELSE AllPushes
 
 Derived(n) ==
-    {[op |-> o, i |-> i, j |-> j] : o \in {"add", "sub"}, i \in 1..n, j \in 1..n}
+    {[op |-> o, i |-> i, j |-> j] : o \in {"add", "sub", "relist"}, i \in 1..n, j \in 1..n}
     \cup {[op |-> o, i |-> i] : o \in {"neg", "roundtrip"}, i \in 1..n}
 
 VARIABLES hist, reps, vals
